@@ -127,10 +127,20 @@ WRAPS = [(b"", b""), (b"", b""), (b" ", b"\t "), (b"\xa0", b"\xa0"), (b"\x0b", b
          (b"\x85", b""), (b"", b"\xa0"), (b"caf\xe9 ", b""), (b"\t", b"")]
 
 
+# field names by id (5 is the hyphen look-alike of the SCRIPT_NAME forwarder header); 6.. are names that servers have been
+# known to treat specially: proxy / forwarding / hop-by-hop / conditional / auth fields -- to the gateway they are all
+# just HTTP_* variables
+NAMES = {1: "X-A", 2: "X-B", 3: "Accept", 4: "X-Custom-Long-Name", 5: "Script-Name", 6: "Proxy", 7: "X-Forwarded-Proto",
+         8: "X-Forwarded-For", 9: "X-Forwarded-Ssl", 10: "X-Forwarded-Protocol", 11: "Cookie", 12: "Authorization",
+         13: "Connection", 14: "Keep-Alive", 15: "Upgrade", 16: "If-None-Match", 17: "Proxy-Connection", 18: "X-Real-Ip",
+         19: "Forwarded", 20: "Via", 21: "Content-Md5", 22: "Range", 23: "Te", 24: "Trailer"}
+PEERS = [("127.0.0.1", 45678), ("127.0.0.1", 45678), ("10.9.9.9", 5555), ("2001:db8::9", 5555, 0, 0), ""]
+
+
 def observe(form, t, rng, hdrs=None, method="GET", ver=11, vary=False):
     target, parts = concretize(form, t, rng if vary else None)
     hdrs = hdrs or []
-    names = {1: "X-A", 2: "X-B", 3: "Accept", 4: "X-Custom-Long-Name", 5: "Script-Name"}
+    names = dict(NAMES)
     hl = b""
     expect_str = {}                     # environ value string -> value id
     for n, v in hdrs:
@@ -161,7 +171,8 @@ def observe(form, t, rng, hdrs=None, method="GET", ver=11, vary=False):
     if form == "mount":
         os.environ["SCRIPT_NAME"] = "/m"
     try:
-        r = drv.serve("sync", cfg, [req], app)
+        # the peer may or may not be one of the permitted forwarders (the default list: loopback)
+        r = drv.serve("sync", cfg, [req], app, peer=rng.choice(PEERS) if vary else PEERS[0])
     finally:
         os.environ.pop("SCRIPT_NAME", None)
     if not envs:
@@ -216,7 +227,7 @@ def c15(ctx):
     for _ in range(1500 if ctx.quick else 20000):
         form = rng.choice(["origin", "origin", "dslash", "abs", "mount"])
         t = [rng.choice(SYMS) for _ in range(rng.randint(0, 10))]
-        hdrs = [[rng.randint(1, 4), 999 if rng.random() < 0.2 else i + 1] for i in range(rng.randint(0, 6))]
+        hdrs = [[rng.choice([1, 2, 3, 4] + list(range(6, 25))), 999 if rng.random() < 0.2 else i + 1] for i in range(rng.randint(0, 6))]
         if rng.random() < 0.1 and form != "abs":
             hdrs.append([5, 500])
         add(form, t, hdrs=hdrs, method=rng.choice(["GET", "POST", "DELETE", "OPTIONS", "M-SEARCH", "PATCH"]),
